@@ -113,6 +113,7 @@ type Run struct {
 	fs            *fsModel
 	race          *raceState
 	uuidN         int
+	gobTab        []gobBlob
 	stubs         map[string]value // callee name -> harness function value (stub redirection)
 	splitCache    map[*Term][2]*Term
 	unsplit       map[[2]*Term]*Term
